@@ -1,8 +1,75 @@
-(** C20 -- placeholder while the proofs are being written (replaced by the real statements). *)
-From SL Require Import Lib.Base Model.Matrix.
-Local Open Scope Z_scope.
+(** C20 -- Matrix inverse and determinant over the scalar field are exact.
+    Statements only; proofs live in Proofs/Matrix*.v.  Model: Model/Matrix.v (list-of-lists over Z mod q,
+    following crates/sl-mpc-mate/src/matrix.rs loop by loop, index panics explicit).
+    [F q] is the prime field 'F_(Z.to_nat q); [Z2F q]/[F2Z q] relate canonical representatives 0 <= z < q to it;
+    [mxof q n m : 'M[F q]_n] is the matrix of a list matrix; [\det] is MathComp's Leibniz determinant.
+    Every theorem holds for every dimension n and has the premise [prime q]. *)
+Set Warnings "-ambiguous-paths,-notation-overridden,-redundant-canonical-projection".
+From mathcomp Require Import all_ssreflect all_fingroup all_algebra.
+From Coq Require Import ZArith.
+From SL Require Import Lib.Base Model.Matrix Proofs.MatrixInv Proofs.MatrixList Proofs.MatrixField.
+Import GRing.Theory.
+Local Open Scope ring_scope.
 
-Theorem bareiss_empty : forall q, bareiss q [] 0 = Val 1.
-Proof. exact (fun q => eq_refl). Qed.
-Check bareiss_empty : forall q, bareiss q [] 0 = Val 1.
-Print Assumptions bareiss_empty.
+(** The scalar abstraction is faithful: a bijection between [0,q) and the field ... *)
+Theorem scalar_abstraction_bijective : forall q, Znumtheory.prime q ->
+  (forall z, (0 <= z < q)%Z -> F2Z (Z2F q z) = z) /\
+  (forall x : F q, Z2F q (F2Z x) = x /\ (0 <= F2Z x < q)%Z).
+Proof. exact (fun q Hq => conj (fun z => @F2Z_Z2F q Hq z) (fun x => conj (Z2F_F2Z Hq x) (F2Z_range Hq x))). Qed.
+Check scalar_abstraction_bijective : forall q, Znumtheory.prime q ->
+  (forall z, (0 <= z < q)%Z -> F2Z (Z2F q z) = z) /\
+  (forall x : F q, Z2F q (F2Z x) = x /\ (0 <= F2Z x < q)%Z).
+Print Assumptions scalar_abstraction_bijective.
+
+(** ... under which the model's scalar operations are the field operations. *)
+Theorem scalar_ops_are_field_ops : forall q, Znumtheory.prime q -> forall a b, (0 <= a < q)%Z -> (0 <= b < q)%Z ->
+  [/\ Z2F q (zq_add q a b) = Z2F q a + Z2F q b,
+      Z2F q (zq_sub q a b) = Z2F q a - Z2F q b,
+      Z2F q (zq_mul q a b) = Z2F q a * Z2F q b &
+      Z2F q (zq_neg q a) = - Z2F q a].
+Proof. exact scalar_ops. Qed.
+Check scalar_ops_are_field_ops : forall q, Znumtheory.prime q -> forall a b, (0 <= a < q)%Z -> (0 <= b < q)%Z ->
+  [/\ Z2F q (zq_add q a b) = Z2F q a + Z2F q b,
+      Z2F q (zq_sub q a b) = Z2F q a - Z2F q b,
+      Z2F q (zq_mul q a b) = Z2F q a * Z2F q b &
+      Z2F q (zq_neg q a) = - Z2F q a].
+Print Assumptions scalar_ops_are_field_ops.
+
+(** [Scalar::invert] (extended Euclid in the model): defined and correct on every non-zero scalar, none on 0. *)
+Theorem zq_invert_correct : forall q, Znumtheory.prime q -> forall a, (0 < a < q)%Z ->
+  exists v, zq_invert q a = Some v /\ (0 <= v < q)%Z /\ ((a * v) mod q = 1)%Z.
+Proof. exact (fun q Hq a => zq_invert_prime q a Hq). Qed.
+Check zq_invert_correct : forall q, Znumtheory.prime q -> forall a, (0 < a < q)%Z ->
+  exists v, zq_invert q a = Some v /\ (0 <= v < q)%Z /\ ((a * v) mod q = 1)%Z.
+Print Assumptions zq_invert_correct.
+
+(** The computed determinant equals the Leibniz determinant, for every n (n = 0 included) and every well-shaped
+    n x n matrix -- in particular it is a value: neither the "modular inverse does not exist" error nor an index
+    panic is reachable, whatever row exchanges the elimination needs. *)
+Theorem bareiss_det_correct : forall q, Znumtheory.prime q -> forall n m, wf_mat q n m ->
+  bareiss q m n = Val (F2Z (\det (mxof q n m))).
+Proof. exact bareiss_det. Qed.
+Check bareiss_det_correct : forall q, Znumtheory.prime q -> forall n m, wf_mat q n m ->
+  bareiss q m n = Val (F2Z (\det (mxof q n m))).
+Print Assumptions bareiss_det_correct.
+
+(** A zero determinant is reported as the value zero rather than as an arithmetic failure. *)
+Theorem bareiss_singular_zero : forall q, Znumtheory.prime q -> forall n m, wf_mat q n m ->
+  \det (mxof q n m) = 0 -> bareiss q m n = Val 0%Z.
+Proof. exact bareiss_singular. Qed.
+Check bareiss_singular_zero : forall q, Znumtheory.prime q -> forall n m, wf_mat q n m ->
+  \det (mxof q n m) = 0 -> bareiss q m n = Val 0%Z.
+Print Assumptions bareiss_singular_zero.
+
+(** For every n >= 1 (1 x 1 and the special-cased 2 x 2 included) and every matrix with non-zero determinant,
+    [matrix_inverse] returns a well-shaped matrix M' with M' * M = 1 and M * M' = 1. *)
+Theorem inverse_correct : forall q, Znumtheory.prime q -> forall n m, (0 < n)%coq_nat -> wf_mat q n m ->
+  \det (mxof q n m) != 0 ->
+  exists m', [/\ matrix_inverse q m n = Val m', wf_mat q n m',
+                 mxof q n m' *m mxof q n m = 1%:M & mxof q n m *m mxof q n m' = 1%:M].
+Proof. exact inverse_correct_mx. Qed.
+Check inverse_correct : forall q, Znumtheory.prime q -> forall n m, (0 < n)%coq_nat -> wf_mat q n m ->
+  \det (mxof q n m) != 0 ->
+  exists m', [/\ matrix_inverse q m n = Val m', wf_mat q n m',
+                 mxof q n m' *m mxof q n m = 1%:M & mxof q n m *m mxof q n m' = 1%:M].
+Print Assumptions inverse_correct.
